@@ -243,6 +243,14 @@ func (r *Reader) parseWorksheets() error {
 	return nil
 }
 
+// Limits of the worksheet grid: the format's own dimensions, and the number of
+// cells the dense representation is allowed to hold.
+const (
+	maxSheetRows = 1048576
+	maxSheetCols = 16384
+	maxGridCells = 10000000
+)
+
 // parseWorksheet parses a single worksheet.
 func (r *Reader) parseWorksheet(data []byte, name string, index int) (*Sheet, error) {
 	var ws worksheetXML
@@ -293,6 +301,16 @@ func (r *Reader) parseWorksheet(data []byte, name string, index int) (*Sheet, er
 				maxRow = cellRow + 1
 			}
 		}
+	}
+
+	// The grid below is dense (one Cell per position of the bounding rectangle)
+	// and its size comes from references in the file: refuse dimensions no
+	// worksheet can have, and rectangles too large to hold in memory.
+	if maxRow > maxSheetRows || maxCol >= maxSheetCols {
+		return nil, fmt.Errorf("worksheet %q: cell reference outside the %d x %d grid", name, maxSheetRows, maxSheetCols)
+	}
+	if int64(maxRow)*int64(maxCol+1) > maxGridCells {
+		return nil, fmt.Errorf("worksheet %q: grid of %d x %d cells is too large", name, maxRow, maxCol+1)
 	}
 
 	sheet.MaxRow = maxRow - 1 // Convert to 0-indexed
